@@ -547,7 +547,7 @@ func runCheck(id, tier, only string, workers int, verbose bool) int {
 		pj, _ := json.Marshal(params)
 		mp := hsp.MaxPaths
 		if mp == 0 {
-			mp = 200000
+			mp = 60000
 		}
 		bounds = append(bounds, fmt.Sprintf("%s %s (path budget %d; exceeding it is reported as inconclusive)", hsp.Func, pj, mp))
 	}
